@@ -25,7 +25,7 @@ CLAIMED = {
             "that was sent with that id, once, with that acknowledgement and one reason code per entry; a foreign, mistyped, unknown, early or miscounted acknowledgement completes "
             "nothing and is a protocol error. Operations at disconnection, at session loss, at submission while offline and at ack-timeout are completed (failed) exactly when the "
             "specification says so (shared with C15/C18).",
-            REC + "The c01_real_* harnesses run the real completion functions on ONE tracked operation (a second boxed operation in the table exhausts memory; the bystander is present through its table entries). "
+            REC + "The c01_real_* harnesses (thorough tier of this check; two of them are also the quick tier of C06, which shares the mechanism) run the real completion functions on ONE tracked operation (a second boxed operation in the table exhausts memory; the bystander is present through its table entries). "
             "Outside the claim: handler + real completion as one query, reset() over several operations, and every multi-event history.", "5 C01", TECH),
     "C02": ("For every client-to-server packet type in both protocol versions the step list produced by the real write_*_encoding_steps is compared item by item with the wire layout "
             "written from the OASIS specifications (fixed-header flags, Remaining Length = number of bytes that follow, property identifiers and wire types incl. the Subscription "
@@ -55,7 +55,7 @@ CLAIMED = {
     "C06": ("acquire_free_packet_id over three symbolic reservations and every cursor position incl. wrap (non-zero, unused, first free at/after the cursor); binding per operation kind and reuse of the "
             "original id by a retransmission; unbind clears reservation and packet together; reservations survive disconnection and session resumption; session loss releases every id incl. those of "
             "re-queued subscribes.",
-            "Release of the id when an operation completes is decided by the shared c01_real_* harnesses (real completion functions, one tracked operation). Outside the claim: histories (that every path to completion is one of the decided steps is argued on paper).", "5 C06", TECH),
+            "Release of the id when an operation completes is decided by c01_real_fail_q1 / c01_real_ok_q1_puback in this check's quick tier (more kinds in the thorough tier) (real completion functions, one tracked operation). Outside the claim: histories (that every path to completion is one of the decided steps is argued on paper).", "5 C06", TECH),
     "C07": ("CONNECT built from every combination of connect options, rejoin policy and connection history (clean start table, fields copied, server-assigned client id reused) and its wire layout (with C02); "
             "negotiated settings for all 2^11 present/absent CONNACK property combinations; connection-opened queues exactly one CONNECT at the front and arms the deadline, from Disconnected only; "
             "CONNACK in a wrong state or with a failing code is an error and leaves the connection history untouched; a successful CONNACK (symbolic session flag, alias maximum, keep-alive, receive maximum, arrival time; nothing queued) connects, records the success for the rejoin policy, "
